@@ -1,10 +1,3 @@
-//@unit Q2 : FSEDecoder stepping and decode_sequences: with well-formed tables no input makes sequence decoding index out of bounds, overflow or reach unreachable!(); Ok => exactly num_sequences sequences, every offset value >= 1, lengths within the format's ranges, all bits consumed
-//@props C03,C01,C12,C14
-//@tier quick
-//@profile rel
-//@assume BitReaderReversed is abstract here; its contract is Verus unit BRR1 (safety/position) - bit values are Kani BRRK.*
-//@assume table_wf (every state's baseline + 2^num_bits stays inside the table, symbols within the alphabet) is the postcondition of table construction (units F2/F3; see their assumptions) and of reset (FD5: empty table, accuracy_log 0)
-//@assume FSETable::build_decoder / build_from_probabilities are abstract here (units F3/F2, F2C); the three `Vec::from(&..DEFAULT_DISTRIBUTION[..])` argument expressions are replaced by abstract constructors
 use vstd::prelude::*;
 verus! {
 
@@ -79,11 +72,9 @@ impl<'s> BitReaderReversed<'s> {
     { unimplemented!() }
 }
 
-//@struct-check file=ruzstd/src/fse/fse_decoder.rs name=Entry fields="pub base_line: u32 | pub num_bits: u8 | pub symbol: u8"
 #[derive(Copy, Clone)]
 pub struct Entry { pub base_line: u32, pub num_bits: u8, pub symbol: u8 }
 
-//@struct-check file=ruzstd/src/fse/fse_decoder.rs name=FSETable fields="max_symbol: u8 | pub decode: Vec<Entry> | pub accuracy_log: u8"
 pub struct FSETable {
     pub max_symbol: u8,
     pub decode: Vec<Entry>,
@@ -103,7 +94,6 @@ impl FSETable {
     }
 }
 
-//@struct-check file=ruzstd/src/fse/fse_decoder.rs name=FSEDecoder fields="pub state: Entry | table: &'table FSETable"
 pub struct FSEDecoder<'table> {
     pub state: Entry,
     pub table: &'table FSETable,
@@ -118,18 +108,26 @@ impl<'t> FSEDecoder<'t> {
         && self.state.symbol <= self.table.max_symbol
     }
 
-//@extract file=ruzstd/src/fse/fse_decoder.rs impl="^impl<'t> FSEDecoder" fn=new rewrite="table.decode.first().copied().unwrap_or(Entry {=>first_or(&table.decode, Entry {"
-//@spec
+    pub fn new(table: &'t FSETable) -> (r: FSEDecoder<'t>)
         ensures r.table == table,
-//@end
+{
+        FSEDecoder {
+            state: first_or(&table.decode, Entry {
+                base_line: 0,
+                num_bits: 0,
+                symbol: 0,
+            }),
+            table,
+        }
+    }
 
-//@extract file=ruzstd/src/fse/fse_decoder.rs impl="^impl<'t> FSEDecoder" fn=decode_symbol
-//@spec
+    pub fn decode_symbol(&self) -> (r: u8)
         ensures r == self.state.symbol,
-//@end
+{
+        self.state.symbol
+    }
 
-//@extract file=ruzstd/src/fse/fse_decoder.rs impl="^impl<'t> FSEDecoder" fn=init_state
-//@spec
+    pub fn init_state(&mut self, bits: &mut BitReaderReversed<'_>) -> (r: Result<(), FSEDecoderError>)
         requires old(self).table.table_wf(), old(bits).wf(), old(bits).extra() + 64 <= EXTRA_LIMIT,
         ensures
             final(self).table == old(self).table, final(bits).wf(),
@@ -137,37 +135,47 @@ impl<'t> FSEDecoder<'t> {
             r is Err ==> *final(bits) == *old(bits),
             r is Ok ==> final(self).state_ok() && final(bits).remaining() == old(bits).remaining() - old(self).table.accuracy_log,
             old(bits).extra() <= final(bits).extra() <= old(bits).extra() + 64,
-//@ghost at=start
+{
         proof { lemma_shift_facts(); }
-//@end
+        if self.table.accuracy_log == 0 {
+            return Err(FSEDecoderError::TableIsUninitialized);
+        }
+        let new_state = bits.get_bits(self.table.accuracy_log);
+        self.state = self.table.decode[new_state as usize];
 
-//@extract file=ruzstd/src/fse/fse_decoder.rs impl="^impl<'t> FSEDecoder" fn=update_state ret=
-//@spec
+        Ok(())
+    }
+
+    pub fn update_state(&mut self, bits: &mut BitReaderReversed<'_>)
         requires old(self).state_ok(), old(bits).wf(), old(bits).extra() + 64 <= EXTRA_LIMIT,
         ensures
             final(self).table == old(self).table, final(self).state_ok(), final(bits).wf(),
             final(bits).remaining() == old(bits).remaining() - old(self).state.num_bits,
             old(bits).extra() <= final(bits).extra() <= old(bits).extra() + 64,
-//@ghost at=start
+{
         proof { lemma_shift_facts(); }
-//@end
+        let num_bits = self.state.num_bits;
+        let add = bits.get_bits(num_bits);
+        let base_line = self.state.base_line;
+        let new_state = base_line + add as u32;
+        self.state = self.table.decode[new_state as usize];
+
+        //println!("Update: {}, {} -> {}", base_line, add,  self.state);
+    }
 }
 
 
-//@struct-check file=ruzstd/src/blocks/sequence_section.rs name=Sequence fields="pub ll: u32 | pub ml: u32 | pub of: u32"
 #[derive(Clone, Copy)]
 pub struct Sequence { pub ll: u32, pub ml: u32, pub of: u32 }
 
 #[derive(Clone, Copy)]
 pub struct CompressionModes(pub u8);
 
-//@struct-check file=ruzstd/src/blocks/sequence_section.rs name=SequencesHeader fields="pub num_sequences: u32 | pub modes: Option<CompressionModes>"
 pub struct SequencesHeader {
     pub num_sequences: u32,
     pub modes: Option<CompressionModes>,
 }
 
-//@struct-check file=ruzstd/src/decoding/scratch.rs name=FSEScratch fields="pub offsets: FSETable | pub of_rle: Option<u8> | pub literal_lengths: FSETable | pub ll_rle: Option<u8> | pub match_lengths: FSETable | pub ml_rle: Option<u8>"
 pub struct FSEScratch {
     pub offsets: FSETable,
     pub of_rle: Option<u8>,
@@ -225,15 +233,9 @@ impl FSETable {
 /// 1 / 2 / 3 when (acc_log, probs) is the predefined literal-length / offset / match-length distribution, else 0
 pub uninterp spec fn is_default_dist(acc_log: u8, probs: Seq<i32>) -> int;
 
-//@const-check file=ruzstd/src/decoding/sequence_section_decoder.rs text="const LL_DEFAULT_ACC_LOG: u8 = 6;"
-//@const-check file=ruzstd/src/decoding/sequence_section_decoder.rs text="const ML_DEFAULT_ACC_LOG: u8 = 6;"
-//@const-check file=ruzstd/src/decoding/sequence_section_decoder.rs text="const OF_DEFAULT_ACC_LOG: u8 = 5;"
 pub const LL_DEFAULT_ACC_LOG: u8 = 6;
 pub const ML_DEFAULT_ACC_LOG: u8 = 6;
 pub const OF_DEFAULT_ACC_LOG: u8 = 5;
-//@const-check file=ruzstd/src/decoding/sequence_section_decoder.rs text="pub const LL_MAX_LOG: u8 = 9;"
-//@const-check file=ruzstd/src/decoding/sequence_section_decoder.rs text="pub const ML_MAX_LOG: u8 = 9;"
-//@const-check file=ruzstd/src/decoding/sequence_section_decoder.rs text="pub const OF_MAX_LOG: u8 = 8;"
 pub const LL_MAX_LOG: u8 = 9;
 pub const ML_MAX_LOG: u8 = 9;
 pub const OF_MAX_LOG: u8 = 8;
@@ -249,37 +251,47 @@ pub fn ml_default_distribution() -> (r: Vec<i32>) ensures is_default_dist(ML_DEF
 pub enum ModeType { Predefined, RLE, FSECompressed, Repeat }
 
 impl CompressionModes {
-//@extract file=ruzstd/src/blocks/sequence_section.rs impl="^impl CompressionModes" fn=decode_mode
-//@spec
+    pub fn decode_mode(m: u8) -> (r: ModeType)
         requires m <= 3,
         ensures (m == 0 <==> r is Predefined) && (m == 1 <==> r is RLE) && (m == 2 <==> r is FSECompressed) && (m == 3 <==> r is Repeat),
-//@end
-//@extract file=ruzstd/src/blocks/sequence_section.rs impl="^impl CompressionModes" fn=ll_mode
-//@spec
+{
+        match m {
+            0 => ModeType::Predefined,
+            1 => ModeType::RLE,
+            2 => ModeType::FSECompressed,
+            3 => ModeType::Repeat,
+            _ => vpanic(),
+        }
+    }
+    pub fn ll_mode(self) -> (r: ModeType)
         ensures r == spec_mode(self.0 >> 6),
-//@ghost at=start
+{
         proof { let x = self.0; assert((x >> 6) <= 3) by (bit_vector); }
-//@end
-//@extract file=ruzstd/src/blocks/sequence_section.rs impl="^impl CompressionModes" fn=of_mode
-//@spec
+        Self::decode_mode(self.0 >> 6)
+    }
+    pub fn of_mode(self) -> (r: ModeType)
         ensures r == spec_mode((self.0 >> 4) & 3),
-//@ghost at=start
+{
         proof { let x = self.0; assert(((x >> 4) & 3) <= 3) by (bit_vector); }
-//@end
-//@extract file=ruzstd/src/blocks/sequence_section.rs impl="^impl CompressionModes" fn=ml_mode
-//@spec
+        Self::decode_mode((self.0 >> 4) & 0x3)
+    }
+    pub fn ml_mode(self) -> (r: ModeType)
         ensures r == spec_mode((self.0 >> 2) & 3),
-//@ghost at=start
+{
         proof { let x = self.0; assert(((x >> 2) & 3) <= 3) by (bit_vector); }
-//@end
+        Self::decode_mode((self.0 >> 2) & 0x3)
+    }
 }
 /// RFC 3.1.1.3.2.1: 0 Predefined, 1 RLE, 2 FSE compressed, 3 Repeat
 pub open spec fn spec_mode(m: u8) -> ModeType {
     if m == 0 { ModeType::Predefined } else if m == 1 { ModeType::RLE } else if m == 2 { ModeType::FSECompressed } else { ModeType::Repeat }
 }
 
-//@extract file=ruzstd/src/decoding/sequence_section_decoder.rs fn=maybe_update_fse_tables rewrite="&Vec::from(&LITERALS_LENGTH_DEFAULT_DISTRIBUTION[..])=>&ll_default_distribution()||&Vec::from(&OFFSET_DEFAULT_DISTRIBUTION[..])=>&of_default_distribution()||&Vec::from(&MATCH_LENGTH_DEFAULT_DISTRIBUTION[..])=>&ml_default_distribution()||.ok_or(DecodeSequenceError::MissingCompressionMode)?=>.ok_or(DecodeSequenceError::MissingCompressionMode)?"
-//@spec
+pub fn maybe_update_fse_tables(
+    section: &SequencesHeader,
+    source: &[u8],
+    scratch: &mut FSEScratch,
+) -> (r: Result<usize, DecodeSequenceError>)
     requires old(scratch).wf(),
     ensures
         r matches Ok(n) ==> n <= source@.len() && final(scratch).wf(),
@@ -300,27 +312,186 @@ pub open spec fn spec_mode(m: u8) -> ModeType {
             && (spec_mode((m.0 >> 2) & 3) is RLE ==> final(scratch).ml_rle is Some && final(scratch).match_lengths == old(scratch).match_lengths)
         }),
         r is Ok ==> section.modes is Some,
-//@end
+{
+    let modes = section
+        .modes
+        .ok_or(DecodeSequenceError::MissingCompressionMode)?;
+
+    let mut bytes_read = 0;
+
+    match modes.ll_mode() {
+        ModeType::FSECompressed => {
+            let bytes = scratch.literal_lengths.build_decoder(source, LL_MAX_LOG)?;
+            bytes_read += bytes;
+
+            
+            
+            scratch.ll_rle = None;
+        }
+        ModeType::RLE => {
+            
+            if source.is_empty() {
+                return Err(DecodeSequenceError::MissingByteForRleLlTable);
+            }
+            bytes_read += 1;
+            if source[0] > MAX_LITERAL_LENGTH_CODE {
+                return Err(DecodeSequenceError::MissingByteForRleMlTable);
+            }
+            scratch.ll_rle = Some(source[0]);
+        }
+        ModeType::Predefined => {
+            
+            scratch.literal_lengths.build_from_probabilities(
+                LL_DEFAULT_ACC_LOG,
+                &ll_default_distribution(),
+            )?;
+            scratch.ll_rle = None;
+        }
+        ModeType::Repeat => {
+            
+            /* Nothing to do */
+        }
+    };
+
+    let of_source = &source[bytes_read..];
+
+    match modes.of_mode() {
+        ModeType::FSECompressed => {
+            let bytes = scratch.offsets.build_decoder(of_source, OF_MAX_LOG)?;
+            
+            
+            bytes_read += bytes;
+            scratch.of_rle = None;
+        }
+        ModeType::RLE => {
+            
+            if of_source.is_empty() {
+                return Err(DecodeSequenceError::MissingByteForRleOfTable);
+            }
+            bytes_read += 1;
+            if of_source[0] > MAX_OFFSET_CODE {
+                return Err(DecodeSequenceError::MissingByteForRleMlTable);
+            }
+            scratch.of_rle = Some(of_source[0]);
+        }
+        ModeType::Predefined => {
+            
+            scratch.offsets.build_from_probabilities(
+                OF_DEFAULT_ACC_LOG,
+                &of_default_distribution(),
+            )?;
+            scratch.of_rle = None;
+        }
+        ModeType::Repeat => {
+            
+            /* Nothing to do */
+        }
+    };
+
+    let ml_source = &source[bytes_read..];
+
+    match modes.ml_mode() {
+        ModeType::FSECompressed => {
+            let bytes = scratch.match_lengths.build_decoder(ml_source, ML_MAX_LOG)?;
+            bytes_read += bytes;
+            
+            
+            scratch.ml_rle = None;
+        }
+        ModeType::RLE => {
+            
+            if ml_source.is_empty() {
+                return Err(DecodeSequenceError::MissingByteForRleMlTable);
+            }
+            bytes_read += 1;
+            if ml_source[0] > MAX_MATCH_LENGTH_CODE {
+                return Err(DecodeSequenceError::MissingByteForRleMlTable);
+            }
+            scratch.ml_rle = Some(ml_source[0]);
+        }
+        ModeType::Predefined => {
+            
+            scratch.match_lengths.build_from_probabilities(
+                ML_DEFAULT_ACC_LOG,
+                &ml_default_distribution(),
+            )?;
+            scratch.ml_rle = None;
+        }
+        ModeType::Repeat => {
+            
+            /* Nothing to do */
+        }
+    };
+
+    Ok(bytes_read)
+}
 
 pub open spec fn seq_ok(s: Sequence) -> bool {
     s.of >= 1 && s.ll <= 131071 && 3 <= s.ml <= 131074
 }
 
-//@extract file=ruzstd/src/decoding/sequence_section_decoder.rs fn=lookup_ll_code
-//@spec
+pub fn lookup_ll_code(code: u8) -> (r: (u32, u8))
     requires code <= 35,
     ensures r.1 <= 16, r.0 as int + low_mask(r.1) <= 131071,
-//@ghost at=start
+{
     proof { lemma_mask_facts(); }
-//@end
+    match code {
+        0..=15 => (u32::from(code), 0),
+        16 => (16, 1),
+        17 => (18, 1),
+        18 => (20, 1),
+        19 => (22, 1),
+        20 => (24, 2),
+        21 => (28, 2),
+        22 => (32, 3),
+        23 => (40, 3),
+        24 => (48, 4),
+        25 => (64, 6),
+        26 => (128, 7),
+        27 => (256, 8),
+        28 => (512, 9),
+        29 => (1024, 10),
+        30 => (2048, 11),
+        31 => (4096, 12),
+        32 => (8192, 13),
+        33 => (16384, 14),
+        34 => (32768, 15),
+        35 => (65536, 16),
+        _ => vpanic(),
+    }
+}
 
-//@extract file=ruzstd/src/decoding/sequence_section_decoder.rs fn=lookup_ml_code
-//@spec
+pub fn lookup_ml_code(code: u8) -> (r: (u32, u8))
     requires code <= 52,
     ensures r.1 <= 16, r.0 >= 3, r.0 as int + low_mask(r.1) <= 131074,
-//@ghost at=start
+{
     proof { lemma_mask_facts(); }
-//@end
+    match code {
+        0..=31 => (u32::from(code) + 3, 0),
+        32 => (35, 1),
+        33 => (37, 1),
+        34 => (39, 1),
+        35 => (41, 1),
+        36 => (43, 2),
+        37 => (47, 2),
+        38 => (51, 3),
+        39 => (59, 3),
+        40 => (67, 4),
+        41 => (83, 4),
+        42 => (99, 5),
+        43 => (131, 7),
+        44 => (259, 8),
+        45 => (515, 9),
+        46 => (1027, 10),
+        47 => (2051, 11),
+        48 => (4099, 12),
+        49 => (8195, 13),
+        50 => (16387, 14),
+        51 => (32771, 15),
+        52 => (65539, 16),
+        _ => vpanic(),
+    }
+}
 
 pub proof fn lemma_mask_facts()
     ensures
@@ -337,15 +508,31 @@ pub proof fn lemma_mask_facts()
         && ((1u64 << 15u8) - 1) as u64 == 32767 && ((1u64 << 16u8) - 1) as u64 == 65535) by (bit_vector);
 }
 
-//@extract file=ruzstd/src/decoding/sequence_section_decoder.rs fn=decode_sequences_without_rle
-//@spec
+pub fn decode_sequences_without_rle(
+    section: &SequencesHeader,
+    br: &mut BitReaderReversed<'_>,
+    scratch: &FSEScratch,
+    target: &mut Vec<Sequence>,
+) -> (r: Result<(), DecodeSequenceError>)
     requires
         scratch.wf(), old(br).wf(), old(br).extra() <= 640,
     ensures
         r is Ok ==> final(target)@.len() == section.num_sequences && final(br).remaining() <= 0
             && (section.num_sequences > 0 ==> final(br).remaining() == 0)     // every bit of the stream was consumed, none missing
             && forall|i: int| 0 <= i < final(target)@.len() ==> seq_ok(#[trigger] final(target)@[i]),
-//@loop 1
+{
+    let mut ll_dec = FSEDecoder::new(&scratch.literal_lengths);
+    let mut ml_dec = FSEDecoder::new(&scratch.match_lengths);
+    let mut of_dec = FSEDecoder::new(&scratch.offsets);
+
+    ll_dec.init_state(br)?;
+    of_dec.init_state(br)?;
+    ml_dec.init_state(br)?;
+
+    target.clear();
+    target.reserve(section.num_sequences as usize);
+
+    for _seq_idx in 0..section.num_sequences 
         invariant
             scratch.wf(), br.wf(),
             ll_dec.table == &scratch.literal_lengths, ml_dec.table == &scratch.match_lengths, of_dec.table == &scratch.offsets,
@@ -354,19 +541,90 @@ pub proof fn lemma_mask_facts()
             _seq_idx > 0 ==> br.remaining() >= 0,
             br.extra() <= 832 + 384 * _seq_idx,
             forall|i: int| 0 <= i < target@.len() ==> seq_ok(#[trigger] target@[i]),
-//@ghost before="let (obits, ml_add, ll_add) = br.get_bits_triple(of_code, ml_num_bits, ll_num_bits);"
-        proof { lemma_mask_facts(); }
-//@end
+{
+        let ll_code = ll_dec.decode_symbol();
+        let ml_code = ml_dec.decode_symbol();
+        let of_code = of_dec.decode_symbol();
 
-//@extract file=ruzstd/src/decoding/sequence_section_decoder.rs fn=decode_sequences_with_rle
-//@spec
+        let (ll_value, ll_num_bits) = lookup_ll_code(ll_code);
+        let (ml_value, ml_num_bits) = lookup_ml_code(ml_code);
+
+        if of_code > MAX_OFFSET_CODE {
+            return Err(DecodeSequenceError::UnsupportedOffset {
+                offset_code: of_code,
+            });
+        }
+
+        proof { lemma_mask_facts(); }
+        let (obits, ml_add, ll_add) = br.get_bits_triple(of_code, ml_num_bits, ll_num_bits);
+        let offset = obits as u32 + (1u32 << of_code);
+
+        if offset == 0 {
+            return Err(DecodeSequenceError::ZeroOffset);
+        }
+
+        target.push(Sequence {
+            ll: ll_value + ll_add as u32,
+            ml: ml_value + ml_add as u32,
+            of: offset,
+        });
+
+        if target.len() < section.num_sequences as usize {
+            //println!(
+            //    "Bits left: {} ({} bytes)",
+            //    br.bits_remaining(),
+            //    br.bits_remaining() / 8,
+            //);
+            ll_dec.update_state(br);
+            ml_dec.update_state(br);
+            of_dec.update_state(br);
+        }
+
+        if br.bits_remaining() < 0 {
+            return Err(DecodeSequenceError::NotEnoughBytesForNumSequences);
+        }
+    }
+
+    if br.bits_remaining() > 0 {
+        Err(DecodeSequenceError::ExtraBits {
+            bits_remaining: br.bits_remaining(),
+        })
+    } else {
+        Ok(())
+    }
+}
+
+pub fn decode_sequences_with_rle(
+    section: &SequencesHeader,
+    br: &mut BitReaderReversed<'_>,
+    scratch: &FSEScratch,
+    target: &mut Vec<Sequence>,
+) -> (r: Result<(), DecodeSequenceError>)
     requires
         scratch.wf(), old(br).wf(), old(br).extra() <= 640,
     ensures
         r is Ok ==> final(target)@.len() == section.num_sequences && final(br).remaining() <= 0
             && (section.num_sequences > 0 ==> final(br).remaining() == 0)     // every bit of the stream was consumed, none missing
             && forall|i: int| 0 <= i < final(target)@.len() ==> seq_ok(#[trigger] final(target)@[i]),
-//@loop 1
+{
+    let mut ll_dec = FSEDecoder::new(&scratch.literal_lengths);
+    let mut ml_dec = FSEDecoder::new(&scratch.match_lengths);
+    let mut of_dec = FSEDecoder::new(&scratch.offsets);
+
+    if scratch.ll_rle.is_none() {
+        ll_dec.init_state(br)?;
+    }
+    if scratch.of_rle.is_none() {
+        of_dec.init_state(br)?;
+    }
+    if scratch.ml_rle.is_none() {
+        ml_dec.init_state(br)?;
+    }
+
+    target.clear();
+    target.reserve(section.num_sequences as usize);
+
+    for _seq_idx in 0..section.num_sequences 
         invariant
             scratch.wf(), br.wf(),
             ll_dec.table == &scratch.literal_lengths, ml_dec.table == &scratch.match_lengths, of_dec.table == &scratch.offsets,
@@ -377,23 +635,134 @@ pub proof fn lemma_mask_facts()
             _seq_idx > 0 ==> br.remaining() >= 0,
             br.extra() <= 832 + 384 * _seq_idx,
             forall|i: int| 0 <= i < target@.len() ==> seq_ok(#[trigger] target@[i]),
-//@ghost before="let (obits, ml_add, ll_add) = br.get_bits_triple(of_code, ml_num_bits, ll_num_bits);"
-        proof { lemma_mask_facts(); }
-//@end
+{
+        //get the codes from either the RLE byte or from the decoder
+        let ll_code = if let Some(ll_rle) = scratch.ll_rle {
+            ll_rle
+        } else {
+            ll_dec.decode_symbol()
+        };
+        let ml_code = if let Some(ml_rle) = scratch.ml_rle {
+            ml_rle
+        } else {
+            ml_dec.decode_symbol()
+        };
+        let of_code = if let Some(of_rle) = scratch.of_rle {
+            of_rle
+        } else {
+            of_dec.decode_symbol()
+        };
 
-//@extract file=ruzstd/src/decoding/sequence_section_decoder.rs fn=decode_sequences
-//@spec
+        let (ll_value, ll_num_bits) = lookup_ll_code(ll_code);
+        let (ml_value, ml_num_bits) = lookup_ml_code(ml_code);
+
+        //println!("Sequence: {}", i);
+        //println!("of stat: {}", of_dec.state);
+        //println!("of Code: {}", of_code);
+        //println!("ll stat: {}", ll_dec.state);
+        //println!("ll bits: {}", ll_num_bits);
+        //println!("ll Code: {}", ll_value);
+        //println!("ml stat: {}", ml_dec.state);
+        //println!("ml bits: {}", ml_num_bits);
+        //println!("ml Code: {}", ml_value);
+        //println!("");
+
+        if of_code > MAX_OFFSET_CODE {
+            return Err(DecodeSequenceError::UnsupportedOffset {
+                offset_code: of_code,
+            });
+        }
+
+        proof { lemma_mask_facts(); }
+        let (obits, ml_add, ll_add) = br.get_bits_triple(of_code, ml_num_bits, ll_num_bits);
+        let offset = obits as u32 + (1u32 << of_code);
+
+        if offset == 0 {
+            return Err(DecodeSequenceError::ZeroOffset);
+        }
+
+        target.push(Sequence {
+            ll: ll_value + ll_add as u32,
+            ml: ml_value + ml_add as u32,
+            of: offset,
+        });
+
+        if target.len() < section.num_sequences as usize {
+            //println!(
+            //    "Bits left: {} ({} bytes)",
+            //    br.bits_remaining(),
+            //    br.bits_remaining() / 8,
+            //);
+            if scratch.ll_rle.is_none() {
+                ll_dec.update_state(br);
+            }
+            if scratch.ml_rle.is_none() {
+                ml_dec.update_state(br);
+            }
+            if scratch.of_rle.is_none() {
+                of_dec.update_state(br);
+            }
+        }
+
+        if br.bits_remaining() < 0 {
+            return Err(DecodeSequenceError::NotEnoughBytesForNumSequences);
+        }
+    }
+
+    if br.bits_remaining() > 0 {
+        Err(DecodeSequenceError::ExtraBits {
+            bits_remaining: br.bits_remaining(),
+        })
+    } else {
+        Ok(())
+    }
+}
+
+pub fn decode_sequences(
+    section: &SequencesHeader,
+    source: &[u8],
+    scratch: &mut FSEScratch,
+    target: &mut Vec<Sequence>,
+) -> (r: Result<(), DecodeSequenceError>)
     requires
         old(scratch).wf(), source@.len() <= 0x1_0000_0000,
     ensures
         final(scratch).wf() || r is Err,
         r is Ok ==> final(target)@.len() == section.num_sequences
             && forall|i: int| 0 <= i < final(target)@.len() ==> seq_ok(#[trigger] final(target)@[i]),
-//@loop 1
+{
+    let bytes_read = maybe_update_fse_tables(section, source, scratch)?;
+
+    
+
+    let bit_stream = &source[bytes_read..];
+
+    let mut br = BitReaderReversed::new(bit_stream);
+
+    //skip the 0 padding at the end of the last byte of the bit stream and throw away the first 1 found
+    let mut skipped_bits = 0;
+    loop 
         invariant_except_break skipped_bits <= 8,
         invariant br.wf(), 0 <= skipped_bits <= 9, br.extra() <= 64 * skipped_bits, scratch.wf(),
         decreases 9 - skipped_bits,
-//@end
+{
+        let val = br.get_bits(1);
+        skipped_bits += 1;
+        if val == 1 || skipped_bits > 8 {
+            break;
+        }
+    }
+    if skipped_bits > 8 {
+        //if more than 7 bits are 0, this is not the correct end of the bitstream. Either a bug or corrupted data
+        return Err(DecodeSequenceError::ExtraPadding { skipped_bits });
+    }
+
+    if scratch.ll_rle.is_some() || scratch.ml_rle.is_some() || scratch.of_rle.is_some() {
+        decode_sequences_with_rle(section, &mut br, scratch, target)
+    } else {
+        decode_sequences_without_rle(section, &mut br, scratch, target)
+    }
+}
 
 /// `v.first().copied().unwrap_or(d)` (iterator-free form; Verus has no spec for slice::first + Option::copied)
 pub fn first_or(v: &Vec<Entry>, d: Entry) -> (r: Entry) {
@@ -409,5 +778,10 @@ pub proof fn lemma_shift_facts()
     assert(forall|n: u8| n <= 9 ==> (#[trigger] (1u64 << n)) <= 512) by (bit_vector);
 }
 
+pub proof fn verif_canary_must_fail(x: int)
+    requires x > 0,
+    ensures x > 1,
+{
+}
 } // verus!
 fn main() {}
